@@ -5,10 +5,13 @@ def plan(tier):
                 "cfg": "SuffixIndexMC_C05.cfg" if q else "SuffixIndexMC_C05_thorough.cfg",
                 "timeout": 1500, "args": ["-coverage", "1"]}],
         "families": [{"fam": "fm", "trace": "SuffixIndexTraceFm", "nfiles": 2, "timeout": 3000}],
-        "required_obligations": ["exhaustive_small", "complete_by_construction", "partial_by_construction",
+        "required_obligations": ["exhaustive_small", "pattern_iterator_inexact_size_hint", "serde_roundtrip_fmindex", "serde_roundtrip_sampled_sa", "alphabet_max_symbol_sweep_around_dollar", "complete_by_construction", "partial_by_construction",
                                  "absent_by_construction", "longer_than_text", "whole_text_pattern", "multi_sentinel",
                                  "sampled_sa", "sentinel_not_dollar_sampled_sa", "bwt_run_ge_256_occ_rate_gt_256", "text_longer_than_2p24_sampled_sa", "occ_rate_gt64", "own_borrowed", "own_owned", "own_arc"],
-        "rule": "one run = one FM index object (text, alphabet, Occ rate, raw/sampled SA, borrowed/owned/Arc) answering "
+        "rule": "patterns are handed to backward_search through 7 kinds of double-ended iterators (plain, filter, "
+                "chunks+flatten, rev.rev, filter_map, flat_map, chain); owned indexes (and their sampled arrays) go "
+                "through a serde round trip after half of the searches; alphabets 0..=max for max in 33..38 with and "
+                "without '$'; one run = one FM index object (text, alphabet, Occ rate, raw/sampled SA, borrowed/owned/Arc) answering "
                 "many patterns; sentinels '$', '#' and byte 0; exhaustive: every text over {A,C,sentinel} (<=3 sentinels, n<=6/7, SA "
                 "sampling 1..8) x every pattern over {A,C} "
                 "of length <=5/6; random texts up to 500 (DNA, protein, unary, periodic, high bytes, multi-sentinel) for "
